@@ -212,10 +212,30 @@ def add_extra_dims(rng, h, k=None):
         name = name[:32]
         kw = {}
         if sc:
-            kw = dict(scales=np.array([rng.choice([0.5, 0.01, 2.0]) for _ in range(sc)]),
-                      offsets=np.array([rng.choice([0.0, 10.0, -3.5]) for _ in range(sc)]))
+            if rng.random() < 0.2:      # neutral scaling is still a scaled dimension
+                kw = dict(scales=np.ones(sc), offsets=np.zeros(sc))
+            else:
+                kw = dict(scales=np.array([rng.choice([0.5, 0.01, 2.0, 1.0]) for _ in range(sc)]),
+                          offsets=np.array([rng.choice([0.0, 10.0, -3.5]) for _ in range(sc)]))
         h.add_extra_dim(laspy.ExtraBytesParams(name, t, description=rand_ascii(rng, rng.choice([0, 3, 31, 32]), [c for c in range(65, 91)]), **kw))
+    if k and rng.random() < 0.4:
+        # a user VLR AFTER the extra-bytes VLR: the order of the list must survive
+        h.vlrs.append(rand_vlr(rng))
     return h
+
+
+def with_gap(raw, gap, fill=0xAA):
+    """the same LAS 1.4 file with `gap` unused bytes between its last point and its first EVLR (legal; laspy never writes it)"""
+    if len(raw) < 375 or raw[25] < 4:
+        return None
+    st = int.from_bytes(raw[235:243], "little")
+    nev = int.from_bytes(raw[243:247], "little")
+    if nev == 0 or st == 0 or st > len(raw):
+        return None
+    out = bytearray(raw)
+    out[st:st] = bytes([fill]) * gap
+    out[235:243] = (st + gap).to_bytes(8, "little")
+    return bytes(out)
 
 
 def format_key(pf):
